@@ -96,7 +96,7 @@ def named_records(quick, rng):
   from paranoid_crypto.lib import ec_util
   from paranoid_crypto import paranoid_pb2 as pb
   recs = []
-  names = ['secp256r1', 'secp256k1'] if quick else ['secp192r1', 'secp224r1', 'secp256r1', 'secp256k1', 'secp384r1', 'secp521r1',
+  names = ['secp256r1', 'secp256k1', 'brainpoolP256r1'] if quick else ['secp192r1', 'secp224r1', 'secp256r1', 'secp256k1', 'secp384r1', 'secp521r1',
                                                    'brainpoolP256r1', 'brainpoolP384r1', 'brainpoolP512r1']
   curves = {c.name: (ct, c) for ct, c in ec_util.CURVE_FACTORY.items() if c is not None}
   for name in names:
@@ -170,13 +170,14 @@ def named_records(quick, rng):
         rec['raised'] = type(e).__name__
       recs.append(rec)
     # (c) structured private keys through ExtendedBatchDL (one call) and, thorough only, through the check
-    if name in ('secp256r1',) or not quick:
+    if name in ('secp256r1', 'brainpoolP256r1') or not quick:
       bits = n.bit_length()
       keys, cls = [], []
       shifts = list(range(0, bits - 31, 8))
       for j in (rng.sample(shifts, 3) + [0, shifts[-1]] if quick else shifts):
-        v = rng.randrange(1, 2 ** 32)
-        if (v << j) < n:
+        # any 32-bit window value that keeps the key below the order (on Brainpool curves the top word of n is below 2^32 - 1)
+        v = rng.randrange(1, min(2 ** 32, (n >> j) + 1))
+        if 0 < (v << j) < n:
           keys.append(v << j)
           cls.append('shift8')
       for reps in ([2, bits // 32] if quick else range(2, bits // 32 + 1)):
